@@ -17,6 +17,13 @@ var propSpecs = map[string]*PropSpec{
 		Explanation: "tables.Authorized returns true only for the administrator short-cut, an unrestricted DSN, an unavailable permission store, or exactly one grant row for (dsn, table, user) that allows every requested operation; the row and table handlers reach their first row statement on a restricted DSN only for an administrator or after Authorized said yes for (this user, this DSN.table, the handler's operation)",
 		TrustedBase: []string{"the permission store returns exactly the rows matching the three equality filters (resources.ResHandle, C30)", "dsns service returns the DSN record"},
 	},
+	"C24": {
+		Patterns:    []string{"./..."},
+		Level:       "proof",
+		Explanation: "the limiter's operations (CheckRateLimit, RecordFailure, RecordSuccess, pruneLoginAttempts) are under functional contracts over the map account -> (failures, lockedUntil), frame included (other accounts untouched), with the account being the lower-cased user name auth.ValidatePassword looks up; both login paths (router Authenticate, OAuth authorize form) check a password only after the limiter allowed that account and report every outcome to it for the same account",
+		TrustedBase: []string{"time.Now is monotone (ghost clock)", "settings.Get/GetInt are read once per operation (cfgMax/cfgLockout are the values read)", "sync.Mutex gives mutual exclusion: the contracts are sequential (the concurrent histories of the property are not covered)"},
+		Extra:       c24Extra,
+	},
 	"C17": {
 		Patterns:    []string{"./..."},
 		Level:       "proof",
